@@ -393,8 +393,17 @@ pub fn run(tier: Tier) -> i32 {
                 check_pair(x, &e1v[(i + k) % e1v.len()], &dv, st);
             }
         } else {
-            for y in &e1v {
+            // thorough: the quick families on the extended document pool, and the full product E1 x E1 on the
+            // first eight documents (the full product on the extended pool would be 10^10 evaluations)
+            for y in &e0v {
                 check_pair(x, y, &dv, st);
+                check_pair(y, x, &dv, st);
+            }
+            for k in [1usize, 7, 31, 101, 401, 907] {
+                check_pair(x, &e1v[(i + k) % e1v.len()], &dv, st);
+            }
+            for y in &e1v {
+                check_pair(x, y, &dv[..8.min(dv.len())], st);
             }
         }
     });
@@ -420,7 +429,7 @@ pub fn run(tier: Tier) -> i32 {
     }
     rep.guard("non-null compound results occur", st.nontrivial > 1000);
     rep.rule = "all pairs (L, R) from E1 x E0, E0 x E1 and six diagonals of E1 x E1 (thorough: all of E1 x E1) x 11 laws x the document pool: the compound expression (text, and where expressible the tree built through Expression::new) against the combination of the parts' individual search results, computed with separate search calls of the implementation. states = pairs; transitions = (pair, law, document); non-trivial = non-null compound result Plus 11 parts that create values inside the expression (integers beyond i64, i64::MIN, 1e308, 5e-324, -0.0, 1 vs 1.0, non-ASCII strings) x 26 other parts, both orders.".into();
-    rep.bounds = json!({"E1": e1v.len(), "E0": e0v.len(), "laws": LAWS, "documents": dv.len(), "full_product": step == 1});
+    rep.bounds = json!({"E1": e1v.len(), "E0": e0v.len(), "laws": LAWS, "documents": dv.len(), "full_product": if step == 1 { "E1 x E1 on the first 8 documents; E1 x E0, E0 x E1 and six diagonals on all documents" } else { "no" }});
     rep.assumptions = vec!["truthiness table of the specification is applied by the harness to the parts' results".into()];
     rep.stats = st;
     rep.finish()
